@@ -115,3 +115,19 @@ def posmark_name_unescaped(name: str, xr: int = 0, yr: int = 0, xo: int = 0, yo:
 def posmark_offset_4(name: str = "", xr: int = 0, yr: int = 0, xo: int = 0, yo: int = 0) -> bool:
     """half-tile offset stored as 4 (documented alternative to 2) is printed as .5 and read back as 2"""
     return xo == 4 or yo == 4
+
+
+def reader_blank_line_before_closing_delimiter(body: str, dq: bool = False) -> bool:
+    """literal body ending in LF (closing delimiter at column 0) whose preceding line is empty or blanks only and is
+    not the first line: str.splitlines drops the final empty element, so the reader takes that blank line for the
+    delimiter line and removes it, where the specification keeps it"""
+    if not body.endswith("\n"):
+        return False
+    lines = body.split("\n")
+    if len(lines) < 3:
+        return False
+    prev = lines[-2]
+    for c in prev:
+        if c != " ":
+            return False
+    return True
